@@ -269,6 +269,70 @@ theorem VR_refreshVec (F) (gi vi : Nat) (v : Vec) : VR F gi vi v (refreshVec v) 
       cases e.d.refresh <;> simp
     · exact ⟨rfl, rfl, Or.inl rfl⟩
 
+/-! ### refreshDef: the reads made while building a definition -/
+
+theorem refreshDef_blob {v : Vec} (h : v.kind = .blob) : refreshDef v = v := by
+  unfold refreshDef; rw [if_pos h]
+
+theorem refreshDef_nonblob {v : Vec} (h : v.kind ≠ .blob) : refreshDef v = refreshVec v := by
+  unfold refreshDef; rw [if_neg h]
+
+theorem refreshDef_cases (v : Vec) : refreshDef v = v ∨ refreshDef v = refreshVec v := by
+  unfold refreshDef; split
+  · exact Or.inl rfl
+  · exact Or.inr rfl
+
+@[simp] theorem refreshVec_name (v : Vec) : (refreshVec v).name = v.name := rfl
+@[simp] theorem refreshVec_label (v : Vec) : (refreshVec v).label = v.label := rfl
+@[simp] theorem refreshVec_kind (v : Vec) : (refreshVec v).kind = v.kind := rfl
+@[simp] theorem refreshVec_perm (v : Vec) : (refreshVec v).perm = v.perm := rfl
+@[simp] theorem refreshVec_timeout (v : Vec) : (refreshVec v).timeout = v.timeout := rfl
+@[simp] theorem refreshVec_rule (v : Vec) : (refreshVec v).rule = v.rule := rfl
+@[simp] theorem refreshVec_state (v : Vec) : (refreshVec v).state = v.state := rfl
+@[simp] theorem refreshDef_name (v : Vec) : (refreshDef v).name = v.name := by unfold refreshDef; split <;> rfl
+@[simp] theorem refreshDef_label (v : Vec) : (refreshDef v).label = v.label := by unfold refreshDef; split <;> rfl
+@[simp] theorem refreshDef_kind (v : Vec) : (refreshDef v).kind = v.kind := by unfold refreshDef; split <;> rfl
+@[simp] theorem refreshDef_perm (v : Vec) : (refreshDef v).perm = v.perm := by unfold refreshDef; split <;> rfl
+@[simp] theorem refreshDef_timeout (v : Vec) : (refreshDef v).timeout = v.timeout := by unfold refreshDef; split <;> rfl
+@[simp] theorem refreshDef_rule (v : Vec) : (refreshDef v).rule = v.rule := by unfold refreshDef; split <;> rfl
+@[simp] theorem refreshDef_state (v : Vec) : (refreshDef v).state = v.state := by unfold refreshDef; split <;> rfl
+@[simp] theorem refreshDef_enabled (v : Vec) : (refreshDef v).enabled = v.enabled := by unfold refreshDef; split <;> rfl
+@[simp] theorem refreshDef_elems_length (v : Vec) : (refreshDef v).elems.length = v.elems.length := by
+  unfold refreshDef; split
+  · rfl
+  · simp [refreshVec]
+
+theorem vecEnabled_refreshVec (g : Group) (v : Vec) : vecEnabled g (refreshVec v) = vecEnabled g v := rfl
+theorem vecEnabled_refreshDef (g : Group) (v : Vec) : vecEnabled g (refreshDef v) = vecEnabled g v := by
+  simp [vecEnabled]
+
+theorem afterRead_idem (e : Elem) : afterRead (afterRead e) = afterRead e := by
+  unfold afterRead readValue
+  cases h : e.d.refresh <;> simp
+
+/-- reading twice is reading once -/
+theorem refreshVec_idem (v : Vec) : refreshVec (refreshVec v) = refreshVec v := by
+  unfold refreshVec
+  simp only [List.map_map]
+  congr 1
+  apply List.map_congr_left
+  intro e _
+  simp only [Function.comp]
+  by_cases he : e.enabled = true
+  · have : (afterRead e).enabled = true := he
+    simp [he, this, afterRead_idem]
+  · simp [he]
+
+/-- the set message after a definition completes the reads the definition did not make -/
+theorem refreshVec_refreshDef (v : Vec) : refreshVec (refreshDef v) = refreshVec v := by
+  rcases refreshDef_cases v with h | h <;> rw [h]
+  exact refreshVec_idem v
+
+theorem VR_refreshDef (F) (gi vi : Nat) (v : Vec) : VR F gi vi v (refreshDef v) := by
+  rcases refreshDef_cases v with h | h <;> rw [h]
+  · exact VR.refl F gi vi v
+  · exact VR_refreshVec F gi vi v
+
 theorem assignAt_length (rule : Switch.Rule) (vals : List Bool) (i : Nat) (b : Bool) :
     (Switch.assignAt rule vals i b).length = vals.length := by
   unfold Switch.assignAt
@@ -430,6 +494,21 @@ theorem VR_asgV3 (F) (gi vi : Nat) (g : Group) (v : Vec) : VR F gi vi v (asgV3 g
   · exact VR_refreshVec F gi vi v
   · exact VR.refl F gi vi v
 
+/-- the vector after its definition was built -/
+def defV3 (g : Group) (v : Vec) : Vec := if vecEnabled g v then refreshDef v else v
+
+theorem VR_defV3 (F) (gi vi : Nat) (g : Group) (v : Vec) : VR F gi vi v (defV3 g v) := by
+  unfold defV3; split
+  · exact VR_refreshDef F gi vi v
+  · exact VR.refl F gi vi v
+
+/-- definition then set message: together they read what a set message alone reads -/
+theorem asgV3_defV3 (g : Group) (v : Vec) : asgV3 g (defV3 g v) = asgV3 g v := by
+  unfold asgV3 defV3
+  by_cases h : vecEnabled g v = true
+  · simp [h, vecEnabled_refreshDef, refreshVec_refreshDef]
+  · simp [h]
+
 theorem assign_rel {F} (d : Device) (a : Addr) (val : Value)
     (hF : ∀ g v e, getVec d a.g a.v = some (g, v) → v.elems[a.e]? = some e →
       (v.kind = .switch → ∀ nm, F a.g a.v .switch nm) ∧ F a.g a.v v.kind e.d.name) :
@@ -563,7 +642,7 @@ theorem sendDefs_rel (F) (l : List (Nat × Nat)) : ∀ d, DevRel (VR F) d (sendD
       · dsimp only
         rw [mergeRes_dev]
         refine DevRel.trans (VR.trans _) (DevRel.of_setVec (VR.refl F) hv ?_) (ih _)
-        exact VR_asgV3 F gi vi g v
+        exact VR_defV3 F gi vi g v
 
 theorem mapParts_ok (f : Elem → Except Exc Part) (l : List Elem) (h : ∀ e ∈ l, ∃ p, f e = .ok p) :
     ∃ ps, mapParts f l = .ok ps := by
@@ -659,7 +738,7 @@ theorem sendDefs_exc (l : List (Nat × Nat)) : ∀ d, WF d = true → (sendDefs 
       simp only [hm]
       rw [mergeRes_exc _ _ rfl]
       apply ih
-      exact (DevRel.of_setVec (VR.refl NoFree) hv (VR_asgV3 NoFree gi vi g v)).wf' hwf
+      exact (DevRel.of_setVec (VR.refl NoFree) hv (VR_defV3 NoFree gi vi g v)).wf' hwf
 
 theorem onePart_err (k : Kind) (e : Elem) (x : Exc) (h : onePart k e = .error x) : swallowed x = true := by
   unfold onePart at h
@@ -869,6 +948,9 @@ theorem c12_of_rel (d d' : Device) (m : Msg) (F) (h : DevRel (VR F) d d') (hF : 
 theorem Rwf_asgV3 (gi vi : Nat) (g : Group) (v : Vec) : Rwf gi vi v (asgV3 g v) :=
   VR.toWf NoFree gi vi _ _ (VR_asgV3 NoFree gi vi g v)
 
+theorem Rwf_defV3 (gi vi : Nat) (g : Group) (v : Vec) : Rwf gi vi v (defV3 g v) :=
+  VR.toWf NoFree gi vi _ _ (VR_defV3 NoFree gi vi g v)
+
 theorem setState_rel (d : Device) (gi vi : Nat) (st : Option Str) : DevRel Rwf d (setState d gi vi st).dev := by
   unfold setState
   split
@@ -900,8 +982,9 @@ theorem announce_rel (d : Device) (gi vi : Nat) : DevRel Rwf d (announce d gi vi
     · exact DevRel.refl Rwf.refl d
     · dsimp only
       split
-      · exact DevRel.of_setVec Rwf.refl hv (Rwf_asgV3 gi vi g v)
-      · exact DevRel.of_setVec Rwf.refl hv (Rwf_asgV3 gi vi g v)
+      · exact DevRel.of_setVec Rwf.refl hv (Rwf_defV3 gi vi g v)
+      · exact DevRel.of_setVec Rwf.refl hv
+          (Rwf.trans _ _ _ _ _ (Rwf_defV3 gi vi g v) (Rwf_asgV3 gi vi g (defV3 g v)))
 
 theorem enableVec_rel (d : Device) (gi vi : Nat) (b : Bool) : DevRel Rwf d (enableVec d gi vi b).dev := by
   unfold enableVec
@@ -1005,6 +1088,10 @@ theorem refreshVec_noRefresh (v : Vec) (hnr : v.elems.any hasRefresh = false) : 
     · rfl
   unfold refreshVec
   rw [this]
+
+theorem refreshDef_noRefresh (v : Vec) (hnr : v.elems.any hasRefresh = false) : refreshDef v = v := by
+  rcases refreshDef_cases v with h | h <;> rw [h]
+  exact refreshVec_noRefresh v hnr
 
 theorem setMsg_count (n : Str) (g : Group) (v : Vec) (m : Option Msg) (h : setMsg n g v = .ok m) :
     countSets' m.toList = if vecEnabled g v then 1 else 0 := by
